@@ -28,6 +28,13 @@ PURL_SHAPE = dict(
     ])
 
 
+# GenericPurl::builder: verified in group purl, used (contract only) by group builder for GenericPurl::new
+GP_BUILDER = dict(id='U-acc.builder', file='purl/src/lib.rs', fn='builder', ctx=r'impl<T> GenericPurl<T>', wrap='impl<T> GenericPurl<T>', properties=['C09'],
+                contract='''        ensures r.package_type == package_type,
+            r.parts.namespace@.len() == 0, r.parts.version@.len() == 0, r.parts.subpath@.len() == 0, r.parts.qualifiers.qualifiers@.len() == 0,
+            <SmallString as vstd::std_specs::convert::FromSpec<S>>::obeys_from_spec() ==> r.parts.name == <SmallString as vstd::std_specs::convert::FromSpec<S>>::from_spec(name)''')
+
+
 def sibling(name):
     """Import a sibling group file (to reuse its unit definitions: one contract text, several groups)."""
     import importlib.util, os
